@@ -86,6 +86,13 @@ def _check_unpack(arr, nbits, order, prefill, nb_type="int"):
         other_p = bits.pack(np.zeros(want.size, dtype=np.uint8), nbits, bitorder=order)
         require(other_p is not back and np.array_equal(back, arr), "pack:earlier-result-changed-by-later-call",
                 lambda: f"nbits={nb_py} order={order} in={arr.tolist()}")
+    # packing in place: the output buffer is the head of the sample array itself (each output byte is written after
+    # the samples it is made of have been read - the unchanged code supports this, and so it must keep doing)
+    if arr.size:
+        work = want.copy()
+        ret = bits.pack(work, nbits, work[: arr.size], bitorder=order)
+        require(np.array_equal(np.asarray(ret), arr), "pack:in-place-buffer",
+                lambda: f"nbits={nb_py} order={order} samples={want.tolist()[:24]}: packing into the head of the sample array gives {np.asarray(ret).tolist()[:8]}, want {arr.tolist()[:8]}")
     # independent numpy codec agrees too (guards the harness codec itself)
     assert np.array_equal(unpack_bits(arr.tobytes(), nb_py, order), want)
     assert pack_bits(want, nb_py, order) == arr.tobytes()
